@@ -142,7 +142,7 @@ def derived(chk, P, classes):
                 if f.name.split("::")[-1] == "getValue":
                     n += 1
                     chk.judge(any(e["k"] == "mem" and e["field"] == fld for _, _, e in f.events()), "DERIVED", short + ":used-by-getValue", f.loc, "getValue reads %s" % fld.split("::")[-1])
-    chk.judge(n >= 3, "DERIVED", "derived-field-sites>=3", "", "%d obligations generated (Uniform's range expected)" % n)
+    chk.shape(n >= 3, "DERIVED", "derived-field-sites>=3", "", "%d obligations generated (Uniform's range expected)" % n)
 
 
 _R = "SimTKcommon/Random/src/Random.cpp"
